@@ -27,6 +27,8 @@
 package sroa
 
 import (
+	"sort"
+
 	"github.com/gogpu/naga/ir"
 )
 
@@ -47,8 +49,17 @@ func Run(mod *ir.Module, fn *ir.Function) int {
 		return 0
 	}
 
+	// decompose appends new local variables; visit candidates in ascending
+	// variable order so the result does not depend on map iteration order.
+	varIdxs := make([]uint32, 0, len(candidates))
+	for varIdx := range candidates {
+		varIdxs = append(varIdxs, varIdx)
+	}
+	sort.Slice(varIdxs, func(i, j int) bool { return varIdxs[i] < varIdxs[j] })
+
 	count := 0
-	for varIdx, info := range candidates {
+	for _, varIdx := range varIdxs {
+		info := candidates[varIdx]
 		if !info.eligible {
 			continue
 		}
